@@ -75,6 +75,8 @@ def r17_1(ctx):
     from ..core import const_fold, resolve_expr, with_str_consts, inline_callable_aliases, sink_into_branches, desugar_ifexp, inline_bool_temps, reaching_def
 
     sn_ = with_str_consts(sniff)
+    if not opens and any(isinstance(c, ast.Call) and isinstance(c.func, ast.Attribute) and c.func.attr == "read" and norm(c.func.value) == p0 for c in walk_own(sniff.node)):
+        raise AnalysisError("R17.1", sniff.where(), f"the sniffer reads from a handle it is given (`{p0}.read(...)`): which file each caller opens for it, and in which mode, is not traced by this rule")
     for r in walk_own(sn_.node):
         if isinstance(r, ast.Return) and r.value is not None:
             rv = ast.parse(resolve_expr(sn_.node, r.value), mode="eval").body
@@ -88,6 +90,12 @@ def r17_1(ctx):
                             nbytes = None
                         if nbytes == 2:
                             reads_magic = True
+    for r in walk_own(sn_.node):
+        if isinstance(r, ast.Return) and r.value is not None and isinstance(const_value(r.value, None), bool):
+            from .c09 import guards_of as _guards_of
+
+            gs = [norm(g_) for g_, _p in _guards_of(sn_.node, r)]
+            ctx.violated("R17.1", sniff.where(r), f"the sniffer answers `{norm(r.value)}` without looking at the content" + (f" when `{gs[0][:70]}`" if gs else "") + ": a BGZF file under another name (the output of `sort --bgzip --outgaf x.gaf`) is opened as text, a plain file named *.gz as BGZF", key_of(sniff, f"sniff-by-name:{norm(r.value)}:{gs[0][:40] if gs else ''}"))
     ok = reads_magic and len(opens) == 1 and norm(opens[0].args[0]) == p0 and const_value(opens[0].args[1]) == "rb" if opens and len(opens[0].args) > 1 else False
     ctx.check(ok, "R17.1", sniff.where(), "compression is detected from the content: the first two bytes of the file are compared with the gzip magic number (a BGZF file under any name is recognised, a plain file named *.gz is not misread)", key_of(sniff, f"sniff:{src[:120]}"))
     # every opener of a GAF path
@@ -146,7 +154,13 @@ def r17_1(ctx):
             if isinstance(c, ast.Call) and norm(c.func) == "GAF" and c.args:
                 users.append(f.module.name)
     need = {"gaftools.cli.view", "gaftools.cli.index", "gaftools.cli.stat", "gaftools.cli.realign", "gaftools.cli.phase", "gaftools.conversion"}
-    ctx.check(need <= set(users), "R17.1", "gaftools/", "view, index, stat, realign, phase and the converters read GAFs through the GAF class (which sniffs)", "gaftools::gaf-class-users", users=sorted(set(users)))
+    missing = need - set(users)
+    for mname in sorted(missing):
+        # a module that no longer constructs the reader may be handed one (a parameter on which read_file / read_line is called)
+        handed = any(isinstance(c, ast.Call) and isinstance(c.func, ast.Attribute) and c.func.attr in ("read_file", "read_line") and isinstance(c.func.value, ast.Name) and c.func.value.id in f.params for f in repo.all_funcs() if f.module.name == mname for c in walk_own(f.node))
+        if not handed:
+            raise AnalysisError("R17.1", "gaftools/", f"cannot find where {mname} gets its GAF reader (no GAF(...) construction, no reader parameter)")
+    ctx.holds("R17.1", "gaftools/", "view, index, stat, realign, phase and the converters read GAFs through the GAF class (which sniffs)" + (f"; handed a reader: {sorted(missing)}" if missing else ""), users=sorted(set(users)))
 
 
 def stmt_of(f, target):
